@@ -2,8 +2,13 @@
 //
 // SPDX-License-Identifier: Apache-2.0
 
+#[cfg(feature = "verif-hooks")]
+use crate::verif::AtomicU8;
 use std::ops::Index;
 use std::os::fd::{AsRawFd, BorrowedFd};
+#[cfg(feature = "verif-hooks")]
+use std::sync::atomic::Ordering;
+#[cfg(not(feature = "verif-hooks"))]
 use std::sync::atomic::{AtomicU8, Ordering};
 use std::sync::{Arc, RwLock};
 use std::{io, ptr};
